@@ -10,19 +10,58 @@ import random
 import pysam
 
 
+class LazyGenome:
+    """Contig sequence generated block-wise on demand (for loci tens of megabases into a chromosome): random bases,
+    with the gene locus overwritten by aldy's genome-oriented reference."""
+
+    BLOCK = 4096
+
+    def __init__(self, L, seed, gene):
+        self.L = L
+        self.seed = seed
+        self.gene = gene
+        self.lo, self.hi = gene._lookup_range
+        self._blocks = {}
+
+    def __len__(self):
+        return self.L
+
+    def _block(self, b):
+        if b not in self._blocks:
+            r = random.Random(self.seed * 1000003 + b)
+            self._blocks[b] = "".join(r.choice("ACGT") for _ in range(self.BLOCK))
+        return self._blocks[b]
+
+    def _base(self, p):
+        if self.lo <= p < self.hi:
+            c = self.gene[p]
+            if c != "N":
+                return c
+        return self._block(p // self.BLOCK)[p % self.BLOCK]
+
+    def __getitem__(self, k):
+        if isinstance(k, slice):
+            a, b, _ = k.indices(self.L)
+            return "".join(self._base(p) for p in range(a, b))
+        return self._base(k)
+
+
 class Sim:
     def __init__(self, gene, seed=0, neutral_len=1000, pad=3000):
         self.gene = gene
         r = random.Random(seed)
         wide = gene.get_wide_region()
         self.L = wide.end + pad
-        gen = [r.choice("ACGT") for _ in range(self.L)]
-        lo, hi = gene._lookup_range
-        for i in range(lo, hi):
-            c = gene[i]
-            if c != "N":
-                gen[i] = c
-        self.genome = "".join(gen)
+        if self.L > 2_000_000:
+            self.genome = LazyGenome(self.L, seed, gene)
+        else:
+            gen = [r.choice("ACGT") for _ in range(self.L)]
+            lo, hi = gene._lookup_range
+            for i in range(lo, hi):
+                c = gene[i]
+                if c != "N":
+                    gen[i] = c
+            self.genome = "".join(gen)
         from aldy.common import GRange
 
         self.cnr = GRange(gene.chr, wide.end + 800, wide.end + 800 + neutral_len)
